@@ -832,3 +832,117 @@ def tie_program(lang, names_lengths):
     if post:
         lines.append(post)
     return "".join(lines), gaps
+
+
+# ------------------------------------------------------------------------------------------------------------------
+# round 7: FILE contents that are not in Unicode Normalization Form C (decomposed letters, singletons)
+# ------------------------------------------------------------------------------------------------------------------
+
+COMBINING_MARKS = ["\u0301", "\u0308", "\u0300", "\u0302", "\u0303", "\u030a", "\u0327"]
+NFC_SINGLETONS = ["\u212b", "\u2126", "\u212a"]          # ANGSTROM SIGN, OHM SIGN, KELVIN SIGN: NFC maps them to another character
+_COMPOSING = {"\u0301": "aeiouyAEIOUYcnszCNSZ", "\u0308": "aeiouyAEIOUY", "\u0300": "aeiouAEIOU", "\u0302": "aeiouAEIOUcghjsw",
+              "\u0303": "anoANO", "\u030a": "auAU", "\u0327": "cCsStT"}
+
+
+def non_nfc_variant(word, rnd):
+    """`word` with a character sequence that is not in Normalization Form C: a combining mark behind a letter it composes
+    with (NFC is one character shorter), a decomposed letter appended, or a singleton (NFC has the same length, another
+    character)"""
+    import unicodedata
+    for _ in range(8):
+        k = rnd.random()
+        mark = rnd.choice(COMBINING_MARKS)
+        spots = [i for i, c in enumerate(word) if c in _COMPOSING[mark]]
+        if k < 0.55 and spots:
+            i = rnd.choice(spots)
+            new = word[:i + 1] + mark + word[i + 1:]
+        elif k < 0.75:
+            new = word + rnd.choice(_COMPOSING[mark]) + mark
+        else:
+            i = rnd.randint(1, len(word))
+            new = word[:i] + rnd.choice(NFC_SINGLETONS) + word[i:]
+        if unicodedata.normalize("NFC", new) != new:
+            return new
+    return word + "e\u0301"
+
+
+_WORD_RE = None
+
+
+def _plain_name(lang, word):
+    """the language's lexer reads the word standing alone as a plain name (not a keyword, type or builtin)"""
+    from pygments.token import Name
+    key = ("plain", lang, word)
+    if key not in _kw_cache:
+        toks = [(tt, v) for (_, tt, v) in sr.lexer_for(lang).get_tokens_unprocessed(word + " = 1\n") if v.strip()]
+        _kw_cache[key] = bool(toks) and toks[0][1] == word and toks[0][0] in Name and toks[0][0] not in Name.Builtin
+    return _kw_cache[key]
+
+
+def _own_words(lang):
+    """the words in the token tables of the language's own lexer (keywords, builtin types): left as they are"""
+    key = ("own", lang)
+    if key not in _kw_cache:
+        _kw_cache[key] = _lexer_words(type(sr.lexer_for(lang))) | {"if", "in", "is", "or", "as", "do"}
+    return _kw_cache[key]
+
+
+def denormalise(lang, text, rnd, share=0.5, expected=None, only=None):
+    """the same program with a share of its words - identifiers of the language wherever they stand: function names,
+    parameters, variables, words inside string literals and comments - spelled with characters that are NOT in
+    Normalization Form C (every occurrence of a chosen word gets the same spelling, so the program keeps its shape; a
+    spelling is used only if the language's Pygments lexer reads it as ONE identifier token in the function-header
+    contexts of the generator). -> (text, expected measurements moved to the new columns and names, {word: spelling});
+    `only`: restrict the choice to these words"""
+    global _WORD_RE
+    import re
+    if _WORD_RE is None:
+        _WORD_RE = re.compile(r"[A-Za-z_][A-Za-z0-9_]*")
+    chosen = {}
+    table = _own_words(lang)
+    for w in sorted(set(_WORD_RE.findall(text))):
+        if (only is not None and w not in only) or rnd.random() >= share or w in table or "nocl" in w.lower() or not _plain_name(lang, w) or not is_identifier_in(lang, w):
+            continue
+        v = non_nfc_variant(w, rnd)
+        if is_identifier_in(lang, v):
+            chosen[w] = v
+    if not chosen:
+        return text, expected, {}
+    shifts = []          # per line: [(old end index of a replaced word, growth)]
+    lines = []
+    for ln in text.split("\n"):
+        sh = []
+
+        def rep(m, sh=sh):
+            v = chosen.get(m.group(0))
+            if v is None:
+                return m.group(0)
+            sh.append((m.end(), len(v) - len(m.group(0))))
+            return v
+        lines.append(_WORD_RE.sub(rep, ln))
+        shifts.append(sh)
+
+    def col(line, c):
+        return c + sum(d for (e, d) in shifts[line - 1] if e <= c - 1) if 1 <= line <= len(shifts) else c
+    if expected is not None:
+        expected = [(_WORD_RE.sub(lambda m: chosen.get(m.group(0), m.group(0)), n), sl, col(sl, sc), el, col(el, ec), k) for (n, sl, sc, el, ec, k) in expected]
+    return "\n".join(lines), expected, chosen
+
+
+def denormalise_literals(lang, text, rnd, p=0.08):
+    """the same text with combining marks behind letters they compose with INSIDE the string literals and comments the
+    language's lexer sees (decomposed accented letters as macOS tools and copy / paste produce them): whatever the lexer
+    thinks of such characters in identifiers, every language admits them there"""
+    from pygments.token import Comment, String
+    out = []
+    for (off, tt, val) in sr.lexer_for(lang).get_tokens_unprocessed(text):
+        if (tt in String or tt in Comment) and "\\" not in val:
+            buf = []
+            for c in val:
+                buf.append(c)
+                if c.isalpha() and c.isascii() and rnd.random() < p:
+                    marks = [m for m in COMBINING_MARKS if c in _COMPOSING[m]]
+                    buf.append(rnd.choice(marks) if marks else rnd.choice(NFC_SINGLETONS))
+            val = "".join(buf)
+        out.append(val)
+    return "".join(out)
